@@ -162,7 +162,7 @@ func runC14(rc *RunCtx, i int) {
 				if err := e.IngestRows(context.Background(), rows, ch); err != nil {
 					return
 				}
-				ctx, cancel := context.WithTimeout(context.Background(), 30*time.Second)
+				ctx, cancel := context.WithTimeout(context.Background(), core.Patience)
 				e.Flush(ctx)
 				cancel()
 				select {
@@ -177,7 +177,7 @@ func runC14(rc *RunCtx, i int) {
 						mu.Unlock()
 						flushes.Add(1)
 					}
-				case <-time.After(30 * time.Second):
+				case <-time.After(core.Patience):
 					return
 				}
 				time.Sleep(time.Duration(200) * time.Microsecond)
@@ -197,7 +197,7 @@ func runC14(rc *RunCtx, i int) {
 			mu.Lock()
 			curMerge = m
 			mu.Unlock()
-			ctx, cancel := context.WithTimeout(context.Background(), 30*time.Second)
+			ctx, cancel := context.WithTimeout(context.Background(), core.Patience)
 			e.Merge(ctx)
 			cancel()
 			mu.Lock()
@@ -240,7 +240,7 @@ func runC14(rc *RunCtx, i int) {
 					snap[vid] = true
 				}
 				mu.Unlock()
-				ctx, cancel := context.WithTimeout(context.Background(), 30*time.Second)
+				ctx, cancel := context.WithTimeout(context.Background(), core.Patience)
 				res := world.RunQuery(ctx, e, q)
 				cancel()
 				t1 := clock.Tick()
